@@ -95,17 +95,19 @@ def run_case(case):
         tbl, index = [], {}
 
         def enc(rows_):
-            out = []
+            """(disguise pairs — the same on every row, else -1 —, table indices)"""
+            out, ds = [], set()
             for row in rows_:
                 s, n = split_disguise(row_bytes(row))
                 k = index.get(s)
                 if k is None:
                     k = index[s] = len(tbl)
                     tbl.append(s)
-                out.append([k, n])
-            return out
+                out.append(k)
+                ds.add(n)
+            return (ds.pop() if len(ds) == 1 else 0 if not ds else -1), out
 
-        res["full"] = enc(canv.content())
+        res["fd"], res["full"] = enc(canv.content())
         trims = case["trims"]
         if trims == "all":
             mw, mh = case.get("max_exh", (8, 6))
@@ -130,7 +132,7 @@ def run_case(case):
                 got = via_composite(canv, W, H, tl, tt, cols, rows)
             else:
                 got = list(canv.content(tl, tt, cols, rows))
-            obs.append([tl, tt, cols, rows, enc(got)])
+            obs.append([tl, tt, cols, rows, *enc(got)])
         res["tbl"] = tbl
         res["obs"] = obs
         return res
